@@ -137,6 +137,14 @@ def optin_sweep():
             except Warning:
                 if not warn:
                     out.append(f'chain {chain} (most derived first): a consistent chain was rejected with a Warning')
+                else:
+                    # a rejection must leave no verdict behind: asked again (the next dump of such an object), the class is rejected again
+                    try:
+                        again = issubclass(cls, rp.SupportRemoteGetState)
+                        out.append(f'chain {chain} (most derived first): rejected with a Warning the first time, but the SECOND question is answered {again} without a '
+                                   f'Warning (a later dump would serialise the object silently, without the remote flag)')
+                    except Warning:
+                        pass
             if len(out) >= 6:
                 return out
     return out
